@@ -802,7 +802,8 @@ func (lc *leaderController) write(ctx context.Context, requestSupplier func(offs
 	walLog := lc.wal
 	tracker := lc.quorumAckTracker
 	term := lc.term
-	lc.Unlock()
+	// Keep holding the lock until the entry is appended to the wal: the entries must
+	// be appended in the same order in which their offsets were assigned
 	request := requestSupplier(newOffset)
 
 	lc.log.Debug("Append operation", slog.Any("req", request))
@@ -814,10 +815,12 @@ func (lc *leaderController) write(ctx context.Context, requestSupplier func(offs
 	logEntryValue.Value = &proto.LogEntryValue_Requests{Requests: &proto.WriteRequests{Writes: []*proto.WriteRequest{request}}}
 	value, err := logEntryValue.MarshalVT()
 	if err != nil {
+		lc.Unlock()
 		cb.OnCompleteError(err)
 		return
 	}
 
+	defer lc.Unlock()
 	walLog.AppendAndSync(&proto.LogEntry{
 		Term:      term,
 		Offset:    newOffset,
